@@ -123,8 +123,10 @@ func genC15(rng *rand.Rand, n int, emit func(Case), dist map[string]int) {
 				if !bytes.Equal(bodySeen, want) {
 					ok, why = false, fmt.Sprintf("Decompress: Content-Encoding %q, handler read %d bytes %x, expected %x", enc, len(bodySeen), bodySeen, want)
 				}
-				in, out := degenerate()
-				emit(Case{In: in, Out: out, Ok: ok, Why: why, Human: fmt.Sprintf("Decompress Content-Encoding=%q body %d bytes -> handler read %d bytes", enc, len(sent), len(bodySeen))})
+				labelled := enc == "gzip"
+				in := L(I(-1), B(labelled), S(string(sent)), B(true), S(string(data)))
+				out := L(I(9), I(1), S(string(bodySeen)))
+				emit(Case{In: in, Out: out, Ok: ok, Why: why, Key: "dec|" + enc + "|" + string(sent), Human: fmt.Sprintf("Decompress Content-Encoding=%q body %d bytes -> handler read %d bytes", enc, len(sent), len(bodySeen))})
 				dist["decompress_requests"]++
 				continue
 			}
